@@ -430,7 +430,14 @@ def minimize_lbfgsb(
                 ),
             )
         else:
-            return checkpoint
+            # same state as the checkpoint, but report why this call stopped
+            res = OptimizeResult(checkpoint)
+            res.update(
+                status=istate.warnflag,
+                message=istate.task_str,
+                success=istate.is_success,
+            )
+            return res
 
     # Compute the first gradient if no checkpoint provided
     if checkpoint is None:
